@@ -127,7 +127,15 @@ impl std::error::Error for EntityFailure {}
 
 /// A stream that follows a script, then reports the end forever; after `Err` it reports the
 /// end forever (C20's proviso).
+thread_local! {
+    /// How often an entity stream of the current body was polled again AFTER it had reported
+    /// its end (`Stream`s may panic then; `stream::unfold` does — F13). Printed as `over=`.
+    pub static OVERPOLLS: std::cell::Cell<u64> = const { std::cell::Cell::new(0) };
+}
+
 pub struct ScriptStream {
+    /// the stream has returned `None` once
+    ended: bool,
     evs: VecDeque<Ev>,
     /// what `Stream::size_hint` claims (advisory; nothing in `serve` may trust it): 0 = the
     /// default `(0, None)`, 1 = exact and honest, 2 = "nothing left" `(0, Some(0))`, 3 = huge,
@@ -149,7 +157,7 @@ impl ScriptStream {
                 _ => "an entity stream's size_hint claimed (5, Some(1))",
             });
         }
-        ScriptStream { evs: script.into_iter().collect(), hint }
+        ScriptStream { ended: false, evs: script.into_iter().collect(), hint }
     }
 }
 
@@ -169,7 +177,13 @@ impl Stream for ScriptStream {
     }
     fn poll_next(mut self: Pin<&mut Self>, cx: &mut Context<'_>) -> Poll<Option<Self::Item>> {
         match self.evs.pop_front() {
-            None => Poll::Ready(None),
+            None => {
+                if self.ended {
+                    OVERPOLLS.with(|c| c.set(c.get() + 1));
+                }
+                self.ended = true;
+                Poll::Ready(None)
+            }
             Some(Ev::Chunk(b)) => Poll::Ready(Some(Ok(Bytes::from(b)))),
             Some(Ev::Pending) => {
                 cx.waker().wake_by_ref();
@@ -1251,6 +1265,7 @@ pub fn run_body(
 ) -> Option<(Vec<PollRec>, Vec<(u64, u64)>)> {
     let e = e0.fresh(scripts.to_vec());
     let (resp, _, _) = call_serve(q, &e).ok()?;
+    OVERPOLLS.with(|c| c.set(0));
     let recs = drive(resp.into_body(), polls);
     let calls = e
         .log
@@ -1266,7 +1281,7 @@ pub fn run_body(
 }
 
 /// Canonical form of a poll trace, as the model's `BODY` reply.
-pub fn show_body(recs: &[PollRec], once: bool, multipart_calls: Option<&[(u64, u64)]>) -> String {
+pub fn show_body(recs: &[PollRec], once: bool, multipart_calls: Option<&[(u64, u64)]>, over: u64) -> String {
     let polls = recs
         .iter()
         .map(|r| {
@@ -1287,7 +1302,7 @@ pub fn show_body(recs: &[PollRec], once: bool, multipart_calls: Option<&[(u64, u
                 .join(",")
         })
         .unwrap_or_default();
-    format!("{} calls={}", polls, calls)
+    format!("{} calls={} over={}", polls, calls, over)
 }
 
 pub fn body_line(plan: &Plan, scripts: &[Vec<Ev>], polls: usize) -> String {
@@ -1536,6 +1551,7 @@ pub fn run_body_rope(q: &HReq, e0: &HEntity, scripts: &[Vec<Ev>], polls: usize) 
     let req = q.build();
     let ent = RopeEntity(e.clone());
     let resp = std::panic::catch_unwind(std::panic::AssertUnwindSafe(|| http_serve::serve(ent, &req))).ok()?;
+    OVERPOLLS.with(|c| c.set(0));
     let recs = drive_any(resp.into_body(), polls, false);
     let calls = e.log.lock().unwrap().iter().filter_map(|c| match c {
         Call::GetRange(a, b) => Some((*a, *b)),
